@@ -282,10 +282,15 @@ public:
 
     if (pi)
     {
-      if (lowerBound_ <= pi->lowerBound_)
+      if (lowerBound_ < pi->lowerBound_)
       {
         lowerBound = pi->lowerBound_;
         inclLowerBound = pi->inclLowerBound_;
+      }
+      else if (lowerBound_ == pi->lowerBound_)
+      {
+        lowerBound = lowerBound_;
+        inclLowerBound = inclLowerBound_ && pi->inclLowerBound_;
       }
       else
       {
@@ -293,10 +298,15 @@ public:
         inclLowerBound = inclLowerBound_;
       }
 
-      if (upperBound_ >= pi->upperBound_)
+      if (upperBound_ > pi->upperBound_)
       {
         upperBound = pi->upperBound_;
         inclUpperBound = pi->inclUpperBound_;
+      }
+      else if (upperBound_ == pi->upperBound_)
+      {
+        upperBound = upperBound_;
+        inclUpperBound = inclUpperBound_ && pi->inclUpperBound_;
       }
       else
       {
@@ -322,17 +332,21 @@ public:
     {
       const IntervalConstraint& pi = dynamic_cast<const IntervalConstraint&>(c);
 
-      if (lowerBound_ <= pi.lowerBound_)
+      if (lowerBound_ < pi.lowerBound_)
       {
         lowerBound_ = pi.lowerBound_;
         inclLowerBound_ = pi.inclLowerBound_;
       }
+      else if (lowerBound_ == pi.lowerBound_)
+        inclLowerBound_ = inclLowerBound_ && pi.inclLowerBound_;
 
-      if (upperBound_ >= pi.upperBound_)
+      if (upperBound_ > pi.upperBound_)
       {
         upperBound_ = pi.upperBound_;
         inclUpperBound_ = pi.inclUpperBound_;
       }
+      else if (upperBound_ == pi.upperBound_)
+        inclUpperBound_ = inclUpperBound_ && pi.inclUpperBound_;
       if (pi.getPrecision() > precision_)
         precision_ = pi.getPrecision();
     }
